@@ -17,7 +17,7 @@ SPEC = common.SPEC / "pool"
 REPO_SRC = ["src/threading/ThreadPool.cpp", "src/threading/Thread.cpp", "src/threading/Runnable.cpp"]
 FLAGS = ["-O1", "-g", "-UNDEBUG", "-fno-omit-frame-pointer"]
 P_EVENTS = {"MaxSet", "Begin", "Submit", "StartRet", "RunBegin", "RunEnd", "Destroy", "ClearCall", "ClearRet", "StopCall", "StopRet",
-            "WorkerStart", "WorkerExit", "Quiescent", "Done", "Deadlock", "Crash", "TooLong", "RunOnDead", "DestroyedWhileRunning"}
+            "WorkerStart", "WorkerExit", "Quiescent", "Done", "Deadlock", "Crash", "TooLong", "RunOnDead", "DestroyedWhileRunning", "ArgMismatch"}
 C08_EVENTS = {"StopRet", "WorkerStart", "WorkerExit"}
 
 ASSUMPTIONS = [
@@ -128,7 +128,7 @@ def y_scripts(seed, count):
         for _ in range(n):
             r = rnd.random()
             if r < 0.55 and tasks < 8:
-                prog += "S"
+                prog += "S" if rnd.random() < 0.7 else "K"   # K: the task is a callable with by-value arguments (TRunnable)
                 tasks += 1
             elif r < 0.67:
                 prog += "C"
@@ -136,7 +136,7 @@ def y_scripts(seed, count):
                 prog += "T"
             elif r < 0.90:
                 prog += "Q"
-            elif r < 0.925 and mx >= 2 and "S" in prog:
+            elif r < 0.925 and mx >= 2 and ("S" in prog or "K" in prog):
                 prog += "L"     # setMaxThreadCount(1) while workers exist
             elif r < 0.95 and mx >= 2 and tasks < 5 and "L" not in prog:
                 prog += "M"     # a second client thread calls start() concurrently with the owner (3 + 2 tasks)
